@@ -237,11 +237,13 @@ class GFunction:
             if required_curves > len(height_values):
                 kind = curves_by_kind[len(height_values)]
 
-        # if the interpolation table is not yet know, build it
-        if len(self.interpolation_table) == 0:
+        # if the interpolation table is not yet know (or was built for another interpolation kind or
+        # fill mode, e.g. by an earlier call inside the stored heights), build it
+        if len(self.interpolation_table) == 0 or self.interpolation_table.get("built_for") != (kind, fill_value):
             # create an interpolation for the g-function which takes the height
             # (or equivalent height) as an input the g-function needs to be
             # interpolated at each point in dimensionless time
+            self.interpolation_table = {"built_for": (kind, fill_value)}
             self.interpolation_table["g"] = []
             for i, _ in enumerate(self.log_time):
                 x = []
